@@ -26,7 +26,17 @@ pub fn gen_case(rc: &RunCtx, blob_heavy: bool, nasty: bool) -> WriterCase {
         small: false,
         big_permille: 15,
     };
-    let prog = gen_program(rc.run_seed, &cfg);
+    let mut prog = gen_program(rc.run_seed, &cfg);
+    if rc.index % 512 == 255 {
+        // sub-byte records and far more than 65 536 points with the library's own packet capacity:
+        // one data packet then carries more than 65 536 values per stream
+        use crate::model::*;
+        let w = *g.pick(&[1i64, 3, 7]);
+        let proto: Vec<Rec> = [0u8, 1, 2].iter().map(|i| Rec { name: Name::Std(*i), dt: DType::Int { min: -1, max: -1 + w } }).collect();
+        let n = *g.pick(&[100_000usize, 140_000, 200_000]);
+        prog.knob = None;
+        prog.calls.push(Call::Pc { guid: gen_guid(&mut g), proto, steps: vec![PcStep::Points { n, seed: g.next_u64() }], end: SubEnd::Finalize });
+    }
     let (wchunk, rchunk, sink) = draw_chunks(rc.run_seed);
     WriterCase { prog, wchunk, rchunk, sink, legacy_blob_headers: false }
 }
@@ -92,6 +102,10 @@ pub fn run_points(case: &WriterCase, st: &mut RunStats, check_blobs: bool, check
             st.probe("multi_packet_cloud_knob_off", pc.records as usize > packet_capacity(&pc.proto));
         }
     }
+    st.probe(
+        "more_than_65536_values_of_a_stream_in_one_packet",
+        case.prog.knob.is_none() && w.exec.expected.file.pcs.iter().any(|p| p.records > 65_536 && packet_capacity(&p.proto) > 65_536),
+    );
     st.probe("cloud_with_more_than_65535_points", w.exec.expected.file.pcs.iter().any(|p| p.records > 65_535));
     st.probe("payload_longer_than_65535_bytes", w.exec.expected.blobs.iter().any(|b| b.len() > 65_535));
     st.probe("short_device_transfers", w.disk.short_transfers() > 0);
@@ -133,6 +147,7 @@ impl Prop for C01 {
                 "multi_packet_cloud_knob_off".into(),
                 "partial_byte_carried_across_packet".into(),
                 "short_device_transfers".into(),
+                "more_than_65536_values_of_a_stream_in_one_packet".into(),
             ],
         }
     }
